@@ -44,7 +44,12 @@ fn gen_error_spec(c: &mut Case<'_>) -> (String, Option<String>, Option<String>, 
     };
     let status = if c.t.chance(64) { Some(*c.t.pick(&[400u16, 403, 404, 409, 418, 429, 500, 503, 507, 599])) } else { None };
     let n_h = c.t.len(3);
-    let headers = (0..n_h).map(|i| (format!("x-verif-err-{i}"), { let v = c.t.string1(Alpha::Header, 10); if v.is_empty() { "v".into() } else { v } })).collect();
+    let mut headers: Vec<(String, String)> = (0..n_h).map(|i| (format!("x-verif-err-{i}"), { let v = c.t.string1(Alpha::Header, 10); if v.is_empty() { "v".into() } else { v } })).collect();
+    // a header map may hold several values under one name (Set-Cookie, WWW-Authenticate ...)
+    if !headers.is_empty() && c.t.chance(64) {
+        let name = headers[c.t.below(headers.len())].0.clone();
+        headers.push((name, format!("second-{}", c.t.string1(Alpha::Simple, 4))));
+    }
     (code, message, request_id, status, headers, custom)
 }
 
@@ -68,7 +73,7 @@ fn scripted_error(c: &mut Case<'_>) -> CaseResult {
             if !headers.is_empty() {
                 let mut h = http::HeaderMap::new();
                 for (k, v) in &headers {
-                    h.insert(http::header::HeaderName::from_bytes(k.as_bytes()).unwrap(), http::HeaderValue::from_str(v).unwrap());
+                    h.append(http::header::HeaderName::from_bytes(k.as_bytes()).unwrap(), http::HeaderValue::from_str(v).unwrap());
                 }
                 e.set_headers(h);
             }
@@ -161,7 +166,7 @@ fn scripted_error(c: &mut Case<'_>) -> CaseResult {
         }
     }
     for (k, v) in &headers {
-        if resp.headers.get(k.as_str()).and_then(|x| x.to_str().ok()) != Some(v.as_str()) {
+        if !resp.headers.get_all(k.as_str()).iter().any(|x| x.to_str().ok() == Some(v.as_str())) {
             return Err(c.fail("error-headers-lost", format!("header {k}: {v:?} attached to the error is missing: {:?}", resp.headers)));
         }
     }
